@@ -10,7 +10,7 @@
 From Coq Require Import List ZArith Bool Arith Reals Lra Lia Permutation FinFun.
 From OSV Require Import Num Order Gauss Core RInst Spec.
 From OSV.Lemmas Require Import OrderL OrderL2 RateL.
-From OSV.Lemmas Require OmegaL C05L C05RateL C01L.
+From OSV.Lemmas Require OmegaL C05L C05RateL C01L SpecSumL.
 Import ListNotations.
 Open Scope R_scope.
 
@@ -252,7 +252,7 @@ Proof.
   assert (K' : C01L.keys_ok (length teams) (Some ks')) by (split; [congruence|assumption]).
   destruct (rate_full_nth k P tau limit teams (Some ks) i res Hk K Er) as [r0 [E0 Hmu]].
   destruct (rate_full_nth k P tau limit teams (Some ks') i res' Hk K' Er') as [r0' [E0' Hmu']].
-  set (ts := map (map (inflate tau)) teams).
+  set (ts := map (map (inflate tau)) teams : list team).
   assert (Lts : length ks = length ts) by (unfold ts; now rewrite map_length).
   change (game_of tau teams (Some ks)) with (combine ks ts) in *.
   change (game_of tau teams (Some ks')) with (combine ks' ts) in *.
@@ -278,5 +278,118 @@ Proof.
   - exact Hr.
   - exact E0.
   - exact E0'.
+Qed.
+
+(** ** identical teams up to the identity of the players: equal mu lists and equal sigma lists.
+    The team-level mu increment omega that [compute] hands to [update_team] does not read the
+    member list of a team rating (only [t_mu], [t_ss], [t_rank]); so the member lists can be
+    replaced by anonymous copies, on which [C05L.identical_ordered] applies. *)
+Definition bare (p : rating R) : rating R := mkRating (r_mu p) (r_sigma p) 0%Z NmNone.
+Definition strip (t : trating R) : trating R := mkT (t_mu t) (t_ss t) (map bare (t_team t)) (t_rank t).
+
+Lemma mu_eq_sym l l' : mu_eq l l' -> mu_eq l' l.
+Proof. unfold C05RateL.mu_eq. induction 1; constructor; auto. Qed.
+
+Lemma update_team_strip_mu P (ti : trating R) om de de' :
+  mu_eq (update_team P ti (om, de)) (update_team P (strip ti) (om, de')).
+Proof.
+  unfold C05RateL.mu_eq, update_team. cbn [fst snd strip t_team]. rewrite map_map.
+  generalize (t_team ti) as l. induction l as [|p l IH]; cbn [map]; constructor; [reflexivity|exact IH].
+Qed.
+
+Lemma pl_c_strip P (trs : list (trating R)) : Core.pl_c P (map strip trs) = Core.pl_c P trs.
+Proof.
+  unfold Core.pl_c. f_equal. generalize (fzero : R) as acc. induction trs as [|t l IH]; intros acc; [reflexivity|].
+  cbn [map fold_left]. rewrite IH. reflexivity.
+Qed.
+
+Lemma pl_sum_strip (trs : list (trating R)) c i ti :
+  OmegaL.pl_sum (map strip trs) c i (strip ti) = OmegaL.pl_sum trs c i ti.
+Proof.
+  unfold OmegaL.pl_sum. rewrite map_length.
+  rewrite (SpecSumL.combine_map_r strip (seq 0 (length trs)) trs), map_map.
+  apply Rsum_map_ext. intros [q tq] _. unfold OmegaL.pl_tm. cbn [fst snd strip t_rank].
+  change (OmegaL.pl_e c (strip ti)) with (OmegaL.pl_e c ti).
+  assert (ES : OmegaL.pl_S (map strip trs) c (strip tq) = OmegaL.pl_S trs c tq).
+  { unfold OmegaL.pl_S. cbn [strip t_rank]. apply C05L.Rsum_filter_map; reflexivity. }
+  assert (EA : OmegaL.pl_A (map strip trs) (strip tq) = OmegaL.pl_A trs tq).
+  { unfold OmegaL.pl_A. cbn [strip t_rank]. rewrite SpecSumL.filter_map_comm, map_length. reflexivity. }
+  rewrite ES, EA. reflexivity.
+Qed.
+
+Lemma compute_strip_nth k P (trs : list (trating R)) i res : C05L.full_kind k ->
+  nth_error (compute k P trs) i = Some res ->
+  exists res', nth_error (compute k P (map strip trs)) i = Some res' /\ mu_eq res res'.
+Proof.
+  intros Hk Er.
+  assert (Li : (i < length trs)%nat) by (rewrite <- (compute_length k P trs); apply nth_error_Some; congruence).
+  destruct (nth_error trs i) as [ti|] eqn:Ei; [|apply nth_error_None in Ei; lia].
+  pose proof (map_nth_error strip _ _ Ei) as Ei'.
+  destruct Hk as [->|Hk].
+  - destruct (OmegaL.compute_nth_pl Phi Phiinv P trs i ti Ei) as [de Ec].
+    destruct (OmegaL.compute_nth_pl Phi Phiinv P _ i _ Ei') as [de' Ec'].
+    rewrite Ec in Er. injection Er as <-. eexists. split; [exact Ec'|].
+    rewrite pl_c_strip, pl_sum_strip. cbn [strip t_ss]. apply update_team_strip_mu.
+  - assert (Hk' : k <> PL) by (destruct Hk; subst k; discriminate).
+    destruct (OmegaL.compute_nth_pairs Phi Phiinv k P trs i ti Hk' Ei) as [de Ec].
+    destruct (OmegaL.compute_nth_pairs Phi Phiinv k P _ i _ Hk' Ei') as [de' Ec'].
+    rewrite Ec in Er. injection Er as <-. eexists. split; [exact Ec'|].
+    replace (OmegaL.pair_opps k i (map strip trs)) with (map strip (OmegaL.pair_opps k i trs))
+      by (destruct Hk; subst k; cbn [OmegaL.pair_opps]; symmetry; apply OmegaL.others_map).
+    rewrite map_map.
+    (* [pair_om] does not read [t_team]: the two sums are convertible *)
+    exact (update_team_strip_mu P ti _ de de').
+Qed.
+
+Lemma map_mu_sigma_ext {B} (G : R -> R -> B) (ta tb : list (rating R)) :
+  map r_mu ta = map r_mu tb -> map r_sigma ta = map r_sigma tb ->
+  map (fun p => G (r_mu p) (r_sigma p)) ta = map (fun p => G (r_mu p) (r_sigma p)) tb.
+Proof.
+  revert tb. induction ta as [|p ta IH]; intros [|q tb] Em Es; cbn in *; try discriminate; [reflexivity|].
+  injection Em as Em1 Em. injection Es as Es1 Es. rewrite Em1, Es1. f_equal. now apply IH.
+Qed.
+
+Theorem rate_identical_keys_gen k P tau limit (teams : list team) ks a b ka kb ta tb resa resb :
+  C05L.gf_if_tm Phi Phiinv k -> C05L.full_kind k -> 0 < p_kappa P -> call_dom tau teams ->
+  length ks = length teams -> Forall key_wf ks -> no_ties ks ->
+  nth_error ks a = Some ka -> nth_error ks b = Some kb -> key_ltb ka kb = true ->
+  nth_error teams a = Some ta -> nth_error teams b = Some tb ->
+  map r_mu ta = map r_mu tb -> map r_sigma ta = map r_sigma tb ->
+  nth_error (rate_core k P tau limit teams (Some ks)) a = Some resa ->
+  nth_error (rate_core k P tau limit teams (Some ks)) b = Some resb ->
+  Forall2 (fun pb pa => r_mu pb <= r_mu pa) resb resa.
+Proof.
+  intros G Hk Hkap Hd E Wk NT Eka Ekb Hlt Eta Etb Emu Esig Era Erb.
+  assert (K : C01L.keys_ok (length teams) (Some ks)) by (split; assumption).
+  destruct (rate_full_nth k P tau limit teams (Some ks) a resa Hk K Era) as [ra0 [Ea0 Hmua]].
+  destruct (rate_full_nth k P tau limit teams (Some ks) b resb Hk K Erb) as [rb0 [Eb0 Hmub]].
+  set (g := game_of tau teams (Some ks)) in *.
+  destruct (compute_strip_nth k P _ a ra0 Hk Ea0) as [ra1 [Ea1 Hmua1]].
+  destruct (compute_strip_nth k P _ b rb0 Hk Eb0) as [rb1 [Eb1 Hmub1]].
+  pose proof (C01L.game_of_wfg tau teams (Some ks) K) as W. fold g in W.
+  pose proof (game_nth tau teams ks a ka ta Eka Eta) as Ega. fold g in Ega.
+  pose proof (game_nth tau teams ks b kb tb Ekb Etb) as Egb. fold g in Egb.
+  assert (NTg : no_ties (map fst g)) by (unfold g; now rewrite game_keys).
+  pose proof (C01L.rank_ltb g _ _ W (nth_error_In _ _ Ega) (nth_error_In _ _ Egb)) as Hr.
+  cbn [fst] in Hr. rewrite Hlt in Hr. apply Nat.ltb_lt in Hr.
+  eapply (C05RateL.Forall2_mu_rel Rle); [|exact Hmub|exact Hmua].
+  eapply (C05RateL.Forall2_mu_rel Rle); [|apply mu_eq_sym; exact Hmub1|apply mu_eq_sym; exact Hmua1].
+  eapply (C05L.identical_ordered Phi Phiinv k P (map strip (map (tr_of g) g)) a _ b _ ra1 rb1 G Hk).
+  - rewrite map_map. change (map (fun x : trating R => t_rank (strip x)) (map (tr_of g) g)) with (map t_rank (map (tr_of g) g)).
+    now apply trs_rank_nodup.
+  - rewrite Forall_map. pose proof (game_trs_ss tau teams (Some ks) Hd) as F. fold g in F.
+    revert F. apply Forall_impl. intros t Ht. exact Ht.
+  - exact Hkap.
+  - apply map_nth_error. apply map_nth_error. exact Ega.
+  - apply map_nth_error. apply map_nth_error. exact Egb.
+  - cbn [strip t_mu C01L.tr_of team_rating snd]. f_equal. rewrite !map_map.
+    apply (map_mu_sigma_ext (fun m _ => m)); assumption.
+  - cbn [strip t_ss C01L.tr_of team_rating snd]. f_equal. rewrite !map_map.
+    apply (map_mu_sigma_ext (fun m s => fpow2 (r_sigma (inflate tau (mkRating m s 0%Z NmNone))))); assumption.
+  - cbn [strip t_team C01L.tr_of team_rating snd]. rewrite !map_map.
+    apply (map_mu_sigma_ext (fun m s => bare (inflate tau (mkRating m s 0%Z NmNone)))); assumption.
+  - exact Hr.
+  - exact Ea1.
+  - exact Eb1.
 Qed.
 End C05Lift.
